@@ -18,6 +18,7 @@ fn gen_model(r: &mut Rng) -> LinearModel {
             5 => VariableType::Real(r.range(-4, 0) as f64 * 0.25, r.range(1, 5) as f64),
             6 => VariableType::Real(f64::NEG_INFINITY, r.range(-1, 4) as f64),
             7 => VariableType::Real(r.range(-3, 3) as f64, f64::INFINITY),
+            _ if r.below(4) == 0 => VariableType::Real(-1e20, 2e19),
             _ => VariableType::NonNegativeReal(r.range(1, 3) as f64 * 0.5, f64::INFINITY),
         };
         let k = (i + r.below(3)) % names.len();
@@ -26,19 +27,22 @@ fn gen_model(r: &mut Rng) -> LinearModel {
         m.add_variable(name, t);
     }
     let nv = m.variables().len();
-    let coefs = [0.0, 1.0, -1.0, 2.0, -2.5, 1.0, 0.5, 3.0, -1.0, 1e-7, 1000000.0, 0.000125];
+    // whole numbers beyond the 64-bit integers now and then (big-M constants of that size are ordinary in compiled models)
+    let big = r.below(6) == 0;
+    let coefs: &[f64] = if big { &[0.0, 1.0, -1.0, 2.0, 1e20, -3e19, 0.5, 9.3e18, -1.0, 1e-7, 1000000.0, 1.5e22] } else { &[0.0, 1.0, -1.0, 2.0, -2.5, 1.0, 0.5, 3.0, -1.0, 1e-7, 1000000.0, 0.000125] };
     let nr = r.below(5);
     for j in 0..nr {
-        let c: Vec<f64> = (0..nv).map(|_| *r.pick(&coefs)).collect();
+        let c: Vec<f64> = (0..nv).map(|_| *r.pick(coefs)).collect();
         let cmp = match r.below(5) { 0 | 1 => Comparison::LessOrEqual, 2 => Comparison::GreaterOrEqual, 3 => Comparison::Equal, _ => Comparison::Less };
-        let rhs = *r.pick(&[0.0, 1.0, 2.5, -1.0, 4.0, -2.0, 1e-7, 123456.0, -0.5]);
+        let rhs = if big && r.below(3) == 0 { *r.pick(&[1e30, -1e19, 2e19]) } else { *r.pick(&[0.0, 1.0, 2.5, -1.0, 4.0, -2.0, 1e-7, 123456.0, -0.5]) };
         let has_cap = m.constraints().iter().any(|c| c.name() == "cap");
         // user names of the generated form c<k>, for any k up to the number of rows: before AND after the unnamed row they clash with
-        let ck = format!("c{}", 1 + r.below(nr + 1));
+        // ... and the names the exporter falls back to when c<k> is taken (c<k>_, c<k>__)
+        let ck = format!("c{}{}", 1 + r.below(nr + 1), ["", "", "_", "__"][r.below(4)]);
         let ck_free = !m.constraints().iter().any(|c| c.name() == ck);
-        match r.below(6) { 5 if ck_free => m.add_named_constraint(c, cmp, rhs, &ck), 0 if !m.constraints().iter().any(|k| k.name() == format!("c{}", j + 2)) => m.add_named_constraint(c, cmp, rhs, &format!("c{}", j + 2)), 1 if !has_cap => m.add_named_constraint(c, cmp, rhs, "cap"), 2 => m.add_named_constraint(c, cmp, rhs, &format!("r{j}")), _ => m.add_constraint(c, cmp, rhs) }
+        match r.below(6) { 4 | 5 if ck_free => m.add_named_constraint(c, cmp, rhs, &ck), 0 if !m.constraints().iter().any(|k| k.name() == format!("c{}", j + 2)) => m.add_named_constraint(c, cmp, rhs, &format!("c{}", j + 2)), 1 if !has_cap => m.add_named_constraint(c, cmp, rhs, "cap"), 2 => m.add_named_constraint(c, cmp, rhs, &format!("r{j}")), _ => m.add_constraint(c, cmp, rhs) }
     }
-    let obj: Vec<f64> = (0..nv).map(|_| *r.pick(&coefs)).collect();
+    let obj: Vec<f64> = (0..nv).map(|_| *r.pick(coefs)).collect();
     let dir = match r.below(5) { 0 | 1 => OptimizationType::Min, 2 | 3 => OptimizationType::Max, _ => OptimizationType::Satisfy };
     m.set_objective(obj, dir);
     m
